@@ -116,6 +116,10 @@ func runRT(t *testing.T, sc *rtSc) (res verifsim.Result) {
 			WithCustomMessageSender(func(host.Host, []protocol.ID) pb.MessageSenderWithDisconnect { return sim }),
 			ProtocolPrefix("/sim"), BucketSize(sc.K), Concurrency(sc.Alpha), Resiliency(sc.Beta), DisableAutoRefresh(), Mode(ModeClient),
 			disableFixLowPeersRoutine(nil), LookupCheckConcurrency(sc.CheckCap),
+			// the default refresh-query / probe timeout (10 s) equals the transport's read timeout: a silent peer asked at the start
+			// of a refresh lookup would fail at the very instant the lookup is cancelled by its own deadline, and which of the two the
+			// DHT sees first is a coin toss. Half a millisecond apart (latencies are whole milliseconds) the order is a fact.
+			RoutingTableRefreshQueryTimeout(10*time.Second+500*time.Microsecond),
 			RoutingTableFilter(func(_ any, p peer.ID) bool { return !rejected[p] }))
 		if err != nil {
 			res.Fail("constructs", "C12/new/error", "%v", err)
